@@ -7,7 +7,8 @@
 (* `pos` is the index (full-rate sample units, absolute over all links) of *)
 (* the next sample the caller is entitled to; -1 = unknown (after a failed *)
 (* seek or an I/O fault).  `lap` is the number of upcoming samples that a  *)
-(* lapped seek / crosslap is allowed to have altered.                      *)
+(* lapped seek / crosslap is allowed to have altered; `bl` says that this  *)
+(* region is held to the cross-fade formula of the property (BlendDecided).*)
 (*                                                                         *)
 (* A file F is the record emitted by the stream factory's libogg-only      *)
 (* walker: [nl, total, damaged, links : Seq([serial,ch,rate,bs0,bs1,N,Nh,  *)
@@ -38,7 +39,7 @@ Shr(x,h) == IF h = 1 THEN x \div 2 ELSE x
 Even(x,h) == Shl(Shr(x,h),h)
 Rng(q) == { q[i] : i \in 1..Len(q) }
 
-InitHandle == [open |-> FALSE, f |-> -1, sk |-> FALSE, pos |-> -1, hs |-> 0, lap |-> 0,
+InitHandle == [open |-> FALSE, f |-> -1, sk |-> FALSE, pos |-> -1, hs |-> 0, lap |-> 0, bl |-> FALSE,
                closes |-> 0, faulted |-> FALSE, recov |-> FALSE, fk |-> 0]
 
 (* ---------------- file geometry ---------------- *)
@@ -129,8 +130,20 @@ ChkReadI(s,F,e,n) ==
           (IF e.ret > 0 /\ e.word \in {1,2} /\ ("inj" \in DOMAIN e \/ ~Loose(s,F)) /\ \E i \in 1..Len(e.smp) : ~ConvOK(e.smp[i], e.word, e.sg, e.be) THEN {"PcmConversion"} ELSE {}) \cup
           (IF ~e.guard THEN {"WritesInsideBuffer"} ELSE {})
 
+\* Inside the lapped region the output is the window-weighted cross-fade of the new audio with the audio that would have been read
+\* next at the old position.  WHICH samples are blended, and when the statement can be decided at all, is the model's business
+\* (BlendDecided below, evaluated when the lapping call returns); the float comparison is the harness's: of the first min(n, lap)
+\* samples of this read it compared lbk with the cross-fade and found lbbad of them off.
+BlendJudged(s,F,e) == Strict(s,F) /\ s.pos >= 0 /\ ~Loose(s,F) /\ e.ret > 0 /\ s.lap > 0 /\ s.bl /\ e.ta = s.pos
+ChkBlend(s,F,e) ==
+  IF BlendJudged(s,F,e)
+  THEN IF "lbk" \in DOMAIN e
+       THEN (IF e.lbk = Min({e.ret, s.lap}) /\ e.lbbad = 0 THEN {} ELSE {"LapBlendAsSpecified"})
+       ELSE {"LapBlendObserved"}        \* the harness compared nothing although the model expects a decided region: a note on the machinery, owned by no check
+  ELSE {}
+
 ChkReadF(s,F,e) ==
-  ChkRead(s,F,e,e.ret) \cup
+  ChkRead(s,F,e,e.ret) \cup ChkBlend(s,F,e) \cup
   (IF e.ret > e.len THEN {"ReadAtMostLen"} ELSE {})
 
 \* position after a read: believe the observation when the call delivered, so one defect is reported once
@@ -200,8 +213,31 @@ LapLen(s,F,e) ==   \* half a short block of the old and of the new link, whichev
   IN IF ~(lo \in 1..Len(F.links) /\ ln \in 1..Len(F.links)) THEN 0                 \* no stream description for this handle (damaged-file families that do not log one)
      ELSE Min({Shr(F.links[lo].bs0, s.hs), Shr(F.links[ln].bs0, s.hs)}) \div 2
 
+\* When is the content of the lapped region decided by the property?  so: old handle state, Fo: its file, lo: the link whose audio
+\* the old side is taken from (1-based), sn: the handle that was lapped into, Fn / ln: its file and link, n: length of the region,
+\* e: the call record (state of the NEW handle after the call).
+\*  - both positions are known exactly and neither side is itself inside a region an earlier lapping call altered;
+\*  - at least n samples of the old link follow the old position (otherwise the old side is the decoder's extrapolation of its last
+\*    block, about which the property says nothing);
+\*  - the new handle holds at least n finished samples (dc - dr: what is decoded and not yet returned); with fewer the library
+\*    blends into the still unfinished overlap half of its last block, which the statement does not describe;
+\*  - the harness formed its expectation from the same positions and links (lbfrom, lblo, lbat, lbln, lbn).
+BlendDecided(so,Fo,lo,sn,Fn,ln,n,at,e) ==
+  /\ Strict(so,Fo) /\ Strict(sn,Fn) /\ ~Loose(so,Fo) /\ ~Loose(sn,Fn)
+  /\ so.pos >= 0 /\ at >= 0 /\ so.lap = 0 /\ n > 0
+  /\ lo \in 1..Len(Fo.links) /\ ln \in 1..Len(Fn.links)
+  /\ so.pos >= Fo.links[lo].start /\ Fo.links[lo].start + Fo.links[lo].N - so.pos >= Shl(n, so.hs)
+  /\ (so.hs = 1 => so.pos % 2 = 0) /\ (sn.hs = 1 => at % 2 = 0)
+  /\ at >= Fn.links[ln].start /\ Fn.links[ln].start + Fn.links[ln].N - at >= Shl(n, sn.hs)
+  /\ e.rs = INITSET /\ "dc" \in DOMAIN e /\ e.dc - e.dr >= n
+  /\ "lbn" \in DOMAIN e /\ e.lbn = n /\ e.lbfrom = so.pos /\ e.lblo = lo - 1 /\ e.lbat = at /\ e.lbln = ln - 1
+
+\* the link the old side of a lapping seek comes from: the one the handle was decoding, else the one its position lies in
+LapOldLink(s,F,e) == IF e.rs0 >= STREAMSET /\ e.cur0 + 1 \in 1..F.nl THEN e.cur0 + 1 ELSE IF s.pos >= 0 THEN LinkOf(F, s.pos) ELSE 0
+
 NxtSeek(s,F,k,e,flen) ==
-  IF e.ret = 0 THEN [s EXCEPT !.pos = IF e.tell >= 0 THEN e.tell ELSE -1, !.lap = IF IsLap(k) THEN LapLen(s,F,e) ELSE 0]
+  IF e.ret = 0 THEN [s EXCEPT !.pos = IF e.tell >= 0 THEN e.tell ELSE -1, !.lap = IF IsLap(k) THEN LapLen(s,F,e) ELSE 0,
+                              !.bl = IsLap(k) /\ BlendDecided(s, F, LapOldLink(s,F,e), s, F, e.cur + 1, LapLen(s,F,e), e.tell, e)]
   ELSE IF s.pos < 0 THEN s                          \* an unknown position is only re-established by a seek that succeeds
   ELSE IF ~s.sk /\ IsLap(k) THEN [s EXCEPT !.pos = -1, !.lap = 0]   \* a lapped seek refused on a stream has already consumed its lap samples
   ELSE IF e.tell >= 0 /\ e.rs >= OPENED THEN [s EXCEPT !.pos = e.tell, !.lap = IF e.tell = s.pos /\ ~IsLap(k) THEN s.lap ELSE 0]
